@@ -16,9 +16,9 @@ CONSTANTS Depth,        \* 1 or 2
           Family,       \* "shapes" (C07 / C14 / C15) or "assign" (C06)
           ChainLen,     \* assign family: longest statement chain
           Mutators      \* shapes family: some handlers write to the context they are evaluated in
-HID == <<"h1", "h2", "h3", "h4", "h5", "h6", "h7", "h8", "h9", "h10", "h11", "h12", "h13", "h14", "h15", "h16">>
+HID == <<"h1", "h2", "h3", "h4", "h5", "h6", "h7", "h8", "h9", "h10", "h11", "h12", "h13", "h14", "h15", "h16", "h17", "h18">>
 NAME == <<"n1", "n2", "n3", "n4", "n5", "n6", "n7", "n8", "n9", "n10", "n11", "n12">>
-LeafIdx(h) == CHOOSE i \in 1..16 : HID[i] = h
+LeafIdx(h) == CHOOSE i \in 1..18 : HID[i] = h
 \* abstract shapes
 C == <<"c">>
 Kids1 == {C}
@@ -83,12 +83,13 @@ Faults(L) == {NoFault} \cup {<<k, "err">> : k \in 1..(L + 1)} \cup
 \* the environment of a case: leaf handlers h1..hL return the scripted booleans; G (global function) returns 7 and is logged as h11;
 \* n12 is a context function (h12) used as an assignment target; x is a context variable and a *global* function (h10)
 EnvOf(L, script, fault) ==
-  [handlers |-> [h \in {HID[i] : i \in 1..16} |->
+  [handlers |-> [h \in {HID[i] : i \in 1..18} |->
                    [ret |-> IF \E i \in 1..L : HID[i] = h THEN VBool(script[CHOOSE i \in 1..L : HID[i] = h])
                             ELSE IF h = "h11" THEN VInt(7) ELSE IF h = "h10" THEN VInt(5) ELSE VBool(TRUE), act |-> "lockctx",
                     copy |-> IF ~Mutators THEN <<>> ELSE IF h = "h2" THEN <<"x", "y">> ELSE IF h = "h5" THEN <<"n12", "x">> ELSE IF h = "h11" THEN <<"n1", "g">> ELSE <<>>]],
    gfun |-> ("G" :> "h11") @@ ("x" :> "h10"), gprefix |-> ("upre" :> "h13"), gpostfix |-> ("upost" :> "h14"),
-   ginfix |-> ("uin" :> <<"h15", "CALC">>) @@ ("uasg" :> <<"h16", "SETTER">>), fault |-> fault]
+   \* `+` is replaced by a user handler as well: the compound `+=` keeps its own built-in arithmetic and may not go through it
+   ginfix |-> ("uin" :> <<"h15", "CALC">>) @@ ("uasg" :> <<"h16", "SETTER">>) @@ ("+" :> <<"h17", "CALC">>), fault |-> fault]
 CtxOf(L) == [nm \in {NAME[i] : i \in 1..L} \cup {"n12", "x"} |->
                IF nm = "x" THEN <<"var", VBool(TRUE)>> ELSE IF nm = "n12" THEN <<"fn", "h12">> ELSE <<"fn", HID[CHOOSE i \in 1..L : NAME[i] = nm]>>]
 \* ---- C06: statement chains over two variables ---------------------------------------------------------
@@ -107,7 +108,7 @@ Stmts == << <<"bin", "=", X, N1>>, <<"bin", "=", X, SA>>, <<"bin", "+=", X, N2>>
 NS == Len(Stmts)
 AssignCtxs == << <<>>, ("x" :> <<"var", VInt(3)>>), ("x" :> <<"var", VInt(3)>>) @@ ("y" :> <<"var", VBool(TRUE)>>), ("x" :> <<"fn", "h1">>) @@ ("n12" :> <<"fn", "h12">>),
                 ("n12" :> <<"fn", "h12">>) @@ ("y" :> <<"var", VInt(5)>>) >>
-AssignEnv(fault) == [handlers |-> [h \in {HID[i] : i \in 1..16} |-> [ret |-> IF h = "h1" THEN VInt(10) ELSE VInt(7), act |-> "lockctx"]],
+AssignEnv(fault) == [handlers |-> [h \in {HID[i] : i \in 1..18} |-> [ret |-> IF h = "h1" THEN VInt(10) ELSE VInt(7), act |-> "lockctx"]],
                      gfun |-> <<>>, gprefix |-> <<>>, gpostfix |-> <<>>, ginfix |-> <<>>, fault |-> fault]
 AssignInit == \E len \in 0..ChainLen, c \in 1..Len(AssignCtxs), fault \in {NoFault, <<1, "err">>, <<2, "panic">>} :
                 \E idxs \in [1..len -> 1..NS] :
@@ -132,7 +133,7 @@ DispatchCases == <<
   [prog |-> <<"call", "d11", <<>>>>, ctx |-> ("d11" :> <<"fn", "h16">>), gfun |-> ("d11" :> "h15")],
   [prog |-> <<"call", "max", <<<<"lit", VInt(4)>>, <<"lit", VInt(6)>>>>>>, ctx |-> <<>>, gfun |-> <<>>],
   [prog |-> <<"list", <<<<"call", "d11", <<>>>>, <<"call", "max", <<<<"lit", VInt(1)>>>>>>>>>>, ctx |-> ("max" :> <<"fn", "h6">>), gfun |-> ("d11" :> "h15")] >>
-DispatchEnv(c, fault) == [handlers |-> [h \in {HID[i] : i \in 1..16} |-> [ret |-> VStr(<<104, LeafIdx(h) + 64>>), act |-> "lockctx"]],
+DispatchEnv(c, fault) == [handlers |-> [h \in {HID[i] : i \in 1..18} |-> [ret |-> VStr(<<104, LeafIdx(h) + 64>>), act |-> "lockctx"]],
                           gfun |-> c.gfun, gprefix |-> <<>>, gpostfix |-> <<>>, ginfix |-> <<>>, fault |-> fault]
 DispatchInit == \E k \in 1..Len(DispatchCases), fault \in {NoFault, <<1, "err">>, <<1, "panic">>, <<2, "err">>} : Start(DispatchEnv(DispatchCases[k], fault), DispatchCases[k].prog, DispatchCases[k].ctx)
 ShapeInit == \E s \in Shapes, mode \in LeafModes :
